@@ -734,7 +734,7 @@ std::atomic<uint64_t> g_max_seen_epoch{0};
 
 thread_local uint64_t tl_gap_epoch = 0;          // global epoch observed when the enter gap was reached
 thread_local bool tl_stale_publication = false;  // the epoch published by the last enter was stale by >= 2
-thread_local uint64_t tl_step_upper = 0;  // upper epoch of the newest list node this lookup stood on (0: no traversal step)
+thread_local uint64_t tl_step_upper = 0;  // smallest upper epoch among the unprotected (newer than the guard's) list nodes this lookup stood on (0: none)
 thread_local uint64_t tl_entered_epoch = 0;  // value published by this thread's last EnterEpoch
 thread_local bool tl_long_lookup = false;
 thread_local bool tl_in_gpe = false;
@@ -776,15 +776,17 @@ PointCb(int id, const void *obj)
       // obj is the head of the node list as read by this lookup; if it is newer than the guard's own node the
       // traversal is going to stand on it without protecting it
       const auto upper = reinterpret_cast<const uint64_t *>(obj)[1];
-      if (upper > (tl_entered_epoch & ~static_cast<uint64_t>(EpochManager::kCapacity - 1)) && upper > tl_step_upper) tl_step_upper = upper;
+      if (upper > (tl_entered_epoch & ~static_cast<uint64_t>(EpochManager::kCapacity - 1)) && (tl_step_upper == 0 || upper < tl_step_upper)) tl_step_upper = upper;
       break;
     }
     case kEpochLookupStep: {
       // obj is the list node the lookup is standing on (valid now: the callback runs before any injected delay);
       // ProtectedNode = {next, upper_epoch_, lists}: remember the newest node's upper epoch
       ClassifyLookup();
+      // (every node that reaches this hook is newer than the guard's own node, i.e. not protected by the guard; the
+      // oldest of them is the first one that can be retired)
       const auto upper = reinterpret_cast<const uint64_t *>(obj)[1];
-      if (upper > tl_step_upper) tl_step_upper = upper;
+      if (tl_step_upper == 0 || upper < tl_step_upper) tl_step_upper = upper;
       break;
     }
     default: break;
